@@ -86,20 +86,29 @@ pub struct Toggle {
     reenabled: bool,
 }
 
-/// (operation index 0 deposit / 1 withdraw / 2 swap-or-loan, path name)
-fn paths(t: &Target) -> Vec<(usize, &'static str)> {
+/// (operations the path needs, as a bit mask: 1 deposit / 2 withdraw / 4 swap-or-loan; path name)
+fn paths(t: &Target) -> Vec<(u8, &'static str)> {
     match t {
         Target::PairCp | Target::PairStable => vec![
-            (0, "provide_direct"),
-            (0, "provide_via_frontend_helper"),
-            (1, "withdraw_cw20_hook"),
-            (2, "swap_native_message"),
-            (2, "swap_cw20_hook"),
-            (2, "swap_via_router_native"),
-            (2, "swap_via_router_cw20"),
+            (1, "provide_direct"),
+            (1, "provide_via_frontend_helper"),
+            (2, "withdraw_cw20_hook"),
+            (4, "swap_native_message"),
+            (4, "swap_cw20_hook"),
+            (4, "swap_via_router_native"),
+            (4, "swap_via_router_cw20"),
+            // the helper already holds some LP of this pool (sent to it by mistake) when the deposit arrives
+            (1, "provide_via_frontend_helper_holding_stray_lp"),
         ],
-        Target::Trio => vec![(0, "provide_direct"), (1, "withdraw_cw20_hook"), (2, "swap_native_message"), (2, "swap_cw20_hook")],
-        Target::Vault => vec![(0, "deposit_direct"), (1, "withdraw_cw20_hook"), (2, "flash_loan_direct"), (2, "flash_loan_via_router")],
+        Target::Trio => vec![(1, "provide_direct"), (2, "withdraw_cw20_hook"), (4, "swap_native_message"), (4, "swap_cw20_hook")],
+        Target::Vault => vec![
+            (1, "deposit_direct"),
+            (2, "withdraw_cw20_hook"),
+            (4, "flash_loan_direct"),
+            (4, "flash_loan_via_router"),
+            // a share withdrawal issued from inside a flash-loan callback needs both switches
+            (2 | 4, "withdraw_inside_flash_loan"),
+        ],
     }
 }
 
@@ -133,6 +142,11 @@ impl Toggle {
                 self.allowance(&self.a_token, &self.helper, a),
                 wasm_exec(&self.helper, &frontend_helper::ExecuteMsg::Deposit { pair_address: self.pair.clone(), assets: [self.asset(&self.a_native, a), self.asset(&self.a_token, a)], slippage_tolerance: None, unbonding_duration: 86_400 }, vec![self.native_coin(&self.a_native, a)]),
             ],
+            (Target::PairCp | Target::PairStable, "provide_via_frontend_helper_holding_stray_lp") => vec![
+                wasm_exec(&self.pair_lp, &cw20::Cw20ExecuteMsg::Transfer { recipient: self.helper.clone(), amount: Uint128::new((a / 100).max(1)) }, vec![]),
+                self.allowance(&self.a_token, &self.helper, a),
+                wasm_exec(&self.helper, &frontend_helper::ExecuteMsg::Deposit { pair_address: self.pair.clone(), assets: [self.asset(&self.a_native, a), self.asset(&self.a_token, a)], slippage_tolerance: None, unbonding_duration: 86_400 }, vec![self.native_coin(&self.a_native, a)]),
+            ],
             (Target::PairCp | Target::PairStable, "withdraw_cw20_hook") => vec![wasm_exec(&self.pair_lp, &cw20::Cw20ExecuteMsg::Send { contract: self.pair.clone(), amount: Uint128::new(a / 4), msg: to_json_binary(&pair::Cw20HookMsg::WithdrawLiquidity {}).unwrap() }, vec![])],
             (Target::PairCp | Target::PairStable, "swap_native_message") => vec![wasm_exec(&self.pair, &pair::ExecuteMsg::Swap { offer_asset: self.asset(&self.a_native, a / 10), belief_price: None, max_spread: Some(Decimal::percent(50)), to: None }, vec![self.native_coin(&self.a_native, a / 10)])],
             (Target::PairCp | Target::PairStable, "swap_cw20_hook") => vec![wasm_exec(&asset_id(&self.a_token), &cw20::Cw20ExecuteMsg::Send { contract: self.pair.clone(), amount: Uint128::new(a / 10), msg: to_json_binary(&pair::Cw20HookMsg::Swap { belief_price: None, max_spread: Some(Decimal::percent(50)), to: None }).unwrap() }, vec![])],
@@ -155,6 +169,20 @@ impl Toggle {
                 let amt = a / 10;
                 let pay = amt + amt / 1000 + amt * 2 / 1000 + 3;
                 vec![wasm_exec(&self.borrower, &vh::ExecuteMsg::Run { program: vec![Action::Loan { vault: self.vault.clone(), amount: Uint128::new(amt), program: vec![Action::Pay { to: self.vault.clone(), asset: self.a_native.clone(), amount: Uint128::new(pay) }] }] }, vec![])]
+            }
+            (Target::Vault, "withdraw_inside_flash_loan") => {
+                // the user hands shares to the borrower, which withdraws them inside the callback of its own
+                // loan and repays the loan, its fees and (generously) whatever the withdrawal took out
+                let amt = a / 10;
+                let shares = (a / 8).max(1);
+                let pay = amt + amt / 1000 + amt * 2 / 1000 + 3 + 2 * shares;
+                vec![
+                    wasm_exec(&self.vault_lp, &cw20::Cw20ExecuteMsg::Transfer { recipient: self.borrower.clone(), amount: Uint128::new(shares) }, vec![]),
+                    wasm_exec(&self.borrower, &vh::ExecuteMsg::Run { program: vec![Action::Loan { vault: self.vault.clone(), amount: Uint128::new(amt), program: vec![
+                        Action::WithdrawShares { vault: self.vault.clone(), lp: self.vault_lp.clone(), amount: Uint128::new(shares) },
+                        Action::Pay { to: self.vault.clone(), asset: self.a_native.clone(), amount: Uint128::new(pay) },
+                    ] }] }, vec![]),
+                ]
             }
             (Target::Vault, "flash_loan_via_router") => {
                 let amt = a / 10;
@@ -342,7 +370,7 @@ impl Scenario for Toggle {
 
     fn apply(&mut self, step: &Step, ctx: &mut Ctx) {
         let table = paths(&self.cfg.target);
-        let Some((op, name)) = table.get(step.path).cloned() else { return };
+        let Some((need, name)) = table.get(step.path).cloned() else { return };
         let bits = match step.phase {
             Phase::Toggled => {
                 if !self.toggled {
@@ -382,7 +410,7 @@ impl Scenario for Toggle {
                 7
             }
         };
-        let enabled = bits & (1 << op) != 0;
+        let enabled = bits & need == need;
         let fp0 = fingerprint(&self.app);
         let msgs = self.path_msgs(name);
         let r = tx(&mut self.app, USER, msgs, Fault::None);
